@@ -133,7 +133,7 @@ class Sh:
             g = ml.Gen(r, r.choice(["loops", "errors", "functions"]))
             f, p = g.program(nstmts=r.randint(2, 4))
             out.append(ml.render(f, p, r))
-        base = corpus.harvest()
+        base = corpus.harvest(deterministic=True)
         out += r.sample(base, min(12, len(base)))
         # lexeme-rich statements
         for _ in range(10):
